@@ -1,19 +1,30 @@
 (* Properties_C10.v — C10: @include is equivalent to textual inlining, with provenance and a depth limit.
-   PARTIAL.  Proved here, about the scanner/include-machine model (Lexer.v) for every file system, table
-   set and state: how include paths are resolved, that every scanned file starts at line 1 at the
-   beginning of a line and its tokens carry its own name, where include failures are located, and the
-   depth limit; the resource side is C11.  NOT proved: the equivalence with textual inlining itself (it
-   needs a compositionality lemma for longest-match scanning across the cut points); it is checked on every
-   run on generated include forests against config_read_string of the spliced text, on the model and on
-   the real library.
-
+   Proved here, about the scanner/include-machine model (Lexer.v) over the compiled tables:
+   (a) how include paths are resolved, that every scanned file starts at line 1 at the beginning of a line and its
+       tokens carry its own name, where include failures are located, and the depth limit (the resource side is C11);
+   (b) THE EQUIVALENCE WITH TEXTUAL INLINING, at the level of the token stream the parser receives (Splice.v):
+       for a directive alone on its line whose target is a complete text c (it scans to its end without error, all
+       strings and comments terminated, no directive of its own: `plain c`, a closed computable condition on c alone;
+       c empty or ending with a line feed), scanning the including text gives the same token values in the same order,
+       with the same outcome, as scanning the text with c spliced in at the directive (C10_splice for any buffer at
+       any include depth, C10_splice_top for config_read's token stream).  It rests on a compositionality lemma for
+       longest-match scanning across the cut points, proved against the compiled automaton by certificates
+       (C10_cut_line_feed: in INITIAL and in the comment conditions no match looks past a line feed; C10_cut_quote: in
+       STRING and INCLUDE none looks past a double quote), on the append lemma (C10_append) and on the independence of
+       token values from the bookkeeping fields of the scanner state (C10_bookkeeping_irrelevant).
+   Not proved: nested directives inside c (the same argument by induction on the include depth), include functions
+   returning several files, directives followed by more text on the same line (there b_bol genuinely differs), and the
+   lifting through the parser (the configuration depends on the token values except for the recorded lines and files,
+   which do differ between an include and a splice: that is the provenance clause).  Those cases are compared on
+   every run on generated include forests against config_read_string of the spliced text, on the model and on the real
+   library.
    Known finding F13 (kept, see known_findings.json): when an include function returns several paths and a
    LATER one cannot be opened, the error names the missing file and the line count of the previously
    included file instead of the directive (scanner.l <<EOF>> rule); the model mirrors it (lex_files) and
    C10_later_file_error_refuted exhibits it. *)
 From Coq Require Import List ZArith Bool Lia.
 Import ListNotations.
-From LC Require Import Base Tree Fp Api ApiStep TreeFacts ApiFacts ScanAction FlexEngine Tokens Lexer LexFacts Parser Reader ScannerCert.
+From LC Require Import Base Tree Fp Api ApiStep TreeFacts ApiFacts ScanAction FlexEngine Bisim Tokens Lexer LexFacts Parser Reader ScannerCert Splice.
 From LC.gen Require Import Consts ScannerTables.
 Local Open Scope Z_scope.
 
@@ -154,3 +165,88 @@ Example C10_later_file_error_refuted :
                                [10;10;64;105;110;99;108;117;100;101;32;34;122;34;10] in
   map lt_err toks = [None; None; None; None; Some (ERR_BAD_INCLUDE, Some [98], 4)].
 Proof. vm_compute. reflexivity. Qed.
+
+
+(* ------------------------------------------------------------------------------------------------------- *)
+(* (b) include = textual inlining (Splice.v)                                                                *)
+(* ------------------------------------------------------------------------------------------------------- *)
+
+(* longest-match scanning is compositional at the cut points, for the compiled automaton: in INITIAL and the two
+   comment conditions a match never looks past a line feed ... *)
+Theorem C10_cut_line_feed : forall sc bol x tail,
+  sc = 0 \/ sc = 1 \/ sc = 2 -> bytes_ok x -> bytes_ok tail -> x <> [] -> last x 0 = 10 ->
+  flex_match ScannerCert.the_tables sc bol (x ++ tail) = flex_match ScannerCert.the_tables sc bol x.
+Proof. exact cut_last_nl. Qed.
+Print Assumptions C10_cut_line_feed.
+(* ... and in STRING and INCLUDE never past a double quote *)
+Theorem C10_cut_quote : forall sc bol x tail,
+  sc = 3 \/ sc = 4 -> bytes_ok x -> bytes_ok tail -> In 34 x ->
+  flex_match ScannerCert.the_tables sc bol (x ++ tail) = flex_match ScannerCert.the_tables sc bol x.
+Proof. exact cut_quote. Qed.
+Print Assumptions C10_cut_quote.
+
+(* scanning c ++ tail, for a complete text c: the tokens of c, then the scan of tail from the beginning of a line, in
+   the same frame, at the line after c *)
+Theorem C10_append : forall atof FS incdir incf max_depth di c tail st line fuel,
+  plain atof c -> bytes_ok tail -> l_cond st = 0 -> l_acc st = [] -> (length (c ++ tail) < fuel)%nat ->
+  exists ltoks st' fuel',
+    lex_buf ScannerCert.the_tables yy_rule_can_match_eol yy_actions atof FS incdir incf max_depth di fuel st (mkBuf (c ++ tail) true line) =
+      (let '(t, s, st'', l) := lex_buf ScannerCert.the_tables yy_rule_can_match_eol yy_actions atof FS incdir incf max_depth di fuel' st'
+                                       (mkBuf tail true (line + count_nl c)) in (ltoks ++ t, s, st'', l)) /\
+    map lt_tok ltoks = plain_toks atof c /\ l_cond st' = 0 /\ l_acc st' = [] /\ l_names st' = l_names st /\
+    l_open st' = l_open st /\ l_files st' = l_files st /\ (length tail < fuel')%nat.
+Proof. exact append_plain. Qed.
+Print Assumptions C10_append.
+
+(* token values, outcome and the final (condition, accumulator, file-name stack) do not depend on the open-stream
+   list, the recorded file names, the pending events nor the line numbers the scan starts with (any tables) *)
+Theorem C10_bookkeeping_irrelevant : forall T rule_eol actions atof FS incdir incf max_depth d st1 st2 content,
+  sim st1 st2 ->
+  res4_sim (lex_depth T rule_eol actions atof FS incdir incf max_depth d st1 content)
+           (lex_depth T rule_eol actions atof FS incdir incf max_depth d st2 content).
+Proof. exact lex_depth_sim. Qed.
+Print Assumptions C10_bookkeeping_irrelevant.
+
+(* the splice theorem, for a buffer at any include depth *)
+Theorem C10_splice : forall atof FS incdir incf max_depth st dir post c f d line fuel1 fuel2,
+  l_cond st = 0 -> l_acc st = [] ->
+  directive atof FS incdir incf max_depth st (mkBuf (dir ++ post) true line) [f] post ->
+  fs_lookup FS f = Some (FFile c) -> plain atof c ->
+  (post = [] \/ exists post', post = 10 :: post') -> bytes_ok post ->
+  (length (dir ++ post) < fuel1)%nat -> (length (c ++ post) < fuel2)%nat ->
+  let '(toks1, stop1, st1, _) :=
+    lex_buf ScannerCert.the_tables yy_rule_can_match_eol yy_actions atof FS incdir incf max_depth
+            (Some (lex_files FS (lex_depth ScannerCert.the_tables yy_rule_can_match_eol yy_actions atof FS incdir incf max_depth d)))
+            fuel1 st (mkBuf (dir ++ post) true line) in
+  let '(toks2, stop2, st2, _) :=
+    lex_buf ScannerCert.the_tables yy_rule_can_match_eol yy_actions atof FS incdir incf max_depth
+            (Some (lex_files FS (lex_depth ScannerCert.the_tables yy_rule_can_match_eol yy_actions atof FS incdir incf max_depth d)))
+            fuel2 st (mkBuf (c ++ post) true line) in
+  map lt_tok toks1 = map lt_tok toks2 /\ stop1 = stop2 /\
+  l_cond st1 = l_cond st2 /\ l_acc st1 = l_acc st2 /\ l_names st1 = l_names st2.
+Proof. exact splice. Qed.
+Print Assumptions C10_splice.
+
+(* for the token stream config_read parses: a top-level text pre ++ directive ++ post *)
+Theorem C10_splice_top : forall atof FS cfg top pre dir post c f,
+  plain atof pre -> plain atof c -> bytes_ok dir -> bytes_ok post -> (post = [] \/ exists post', post = 10 :: post') ->
+  directive atof FS (c_incdir cfg) (c_incfn cfg) MAX_INCLUDE_DEPTH (lstate0 top) (mkBuf (dir ++ post) true 1) [f] post ->
+  fs_lookup FS f = Some (FFile c) ->
+  let '(toks1, stop1) := lex_top atof FS cfg top (pre ++ dir ++ post) in
+  let '(toks2, stop2) := lex_top atof FS cfg top (pre ++ c ++ post) in
+  map lt_tok toks1 = map lt_tok toks2 /\ stop1 = stop2.
+Proof. exact splice_top. Qed.
+Print Assumptions C10_splice_top.
+
+(* "plain" is decidable by running the scanner on the text alone *)
+Theorem C10_plain_decidable : forall atof c, plainb atof c = true -> plain atof c.
+Proof. exact plainb_sound. Qed.
+
+(* non-vacuity: x = 1;<LF>@include "f"<LF>y = 2;<LF> with f = s = "a<LF>b"; # k<LF>n = 42;<LF> -- the hypotheses hold and
+   both sides evaluate to the same 17 tokens *)
+Example C10_splice_example :
+  plain ex_atof ex_c /\ plain ex_atof ex_pre /\
+  (let '(toks1, stop1) := lex_top ex_atof ex_fs cfg_init None (ex_pre ++ ex_dir ++ ex_post) in
+   let '(toks2, stop2) := lex_top ex_atof ex_fs cfg_init None (ex_pre ++ ex_c ++ ex_post) in
+   map lt_tok toks1 = map lt_tok toks2 /\ stop1 = stop2).
+Proof. split; [exact ex_c_plain|]. split; [exact ex_pre_plain|]. exact ex_splice. Qed.
